@@ -36,7 +36,7 @@ CHECKS = {
             "assumptions": SIM_ASSUME},
     "C09": {"jobs": [{"name": "simnet", "target": "simnet", "args": ["--set", "C09"], "thorough_args": ["--thorough"]}], "assumptions": SIM_ASSUME},
     "C10": {"jobs": [{"name": "simnet", "target": "simnet", "args": ["--set", "C10"], "thorough_args": ["--thorough"]}], "assumptions": SIM_ASSUME},
-    "C12": {"jobs": [{"name": "simnet", "target": "simnet", "args": ["--set", "C12"], "thorough_args": ["--thorough"]}], "assumptions": SIM_ASSUME},
+    "C12": {"budget_thorough": 3300, "jobs": [{"name": "simnet", "target": "simnet", "args": ["--set", "C12"], "thorough_args": ["--thorough"], "budget_thorough": 3000, "timeout_thorough": 3200}], "assumptions": SIM_ASSUME},
     "C13": {"jobs": [{"name": "simnet", "target": "simnet", "args": ["--set", "C13"], "thorough_args": ["--thorough"]}], "assumptions": SIM_ASSUME},
     "C14": {"jobs": [{"name": "simnet", "target": "simnet", "args": ["--set", "C14"], "thorough_args": ["--thorough"]}], "assumptions": SIM_ASSUME},
     "C15": {"jobs": [{"name": "simnet", "target": "simnet", "args": ["--set", "C15"], "thorough_args": ["--thorough"]}], "assumptions": SIM_ASSUME},
